@@ -181,3 +181,24 @@ def panics_at_tail(body):
     if any(w in x for w in ("panic", "unreachable", "unimplemented", "todo")):
         return x.split(">")[-1]
     return None
+
+
+def resolve_token(db, node):
+    """`token![-]` / `token![%]` expand to `Into::into(quote::MinusSign)`: resolve through the crate's own From impl
+    for the expected type; returns the variant path or None"""
+    b = unwrap_block(node)
+    if not isinstance(b, dict):
+        return None
+    if b.get("k") == "Path":
+        return b["p"]
+    if b.get("k") == "Call" and (b.get("f") or "").endswith("convert::Into::into") and b.get("a"):
+        a = unwrap_block(b["a"][0])
+        if a.get("k") == "Path" and a["p"].startswith("quote::"):
+            ty = db.types[b["ty"]]
+            fid = "quote::<impl core::convert::From<%s> for %s>::from" % (a["p"], ty)
+            f = db.fns.get(fid)
+            if f is not None:
+                t = tail_expr(f.hir)
+                if isinstance(t, dict) and t.get("k") == "Path":
+                    return t["p"]
+    return None
